@@ -16,7 +16,8 @@
  *   Between library calls each thread consults its own PRNG (seeded from <seed>, N, r, i) and either goes
  *   on, sched_yield()s, nanosleeps 0-40us or spins, so every run explores a different interleaving.
  *
- * Output: one line per mismatch (at most 20)
+ * Output: `ref job=<j> type=<T> syn=<s> digest=<hex>` for the first two jobs (samples for the evidence file),
+ * one line per mismatch (at most 20)
  *   mismatch job=<j> type=<T> syn=<s> threads=<N> rep=<r> thread=<i> got=<hex> want=<hex>
  * then per N:  done jobs=<n> threads=<N> reps=<R> executed=<e> mismatches=<m> nondet=<k> loaderr=<l>
  * ThreadSanitizer reports go to stderr (TSAN_OPTIONS=halt_on_error=0:exitcode=66).
@@ -202,6 +203,7 @@ int main(int argc, char **argv) {
             continue;
         }
         jobs[j].ref = a; usable++;
+        if(usable <= 2) printf("ref job=%zu type=%s syn=%s digest=%016" PRIx64 "\n", j, jobs[j].type, jobs[j].syn, a);
     }
 
     /* phase 1 */
